@@ -17,6 +17,7 @@ import (
 	"net/http"
 	"net/http/httptest"
 	"os"
+	"path/filepath"
 	"strings"
 	"testing"
 	"time"
@@ -212,6 +213,140 @@ func TestVerifGate(t *testing.T) {
 	}
 
 	ob, _ := json.Marshal(map[string]any{"users": users, "lookup0": lookup0, "results": results})
+	if err := os.WriteFile(os.Getenv("VERIF_OUT"), ob, 0o644); err != nil {
+		t.Fatal(err)
+	}
+}
+
+// TestVerifStore: histories of permission changes and requests against BOTH user stores (the file-backed one the
+// package TestMain installs and the SQL-backed databaseService on a private SQLite file).
+// VERIF_IN JSON {"histories":[[["set",user,[perms]] | ["req",[route perms],user,"basic"|"token"], ...], ...]}
+// VERIF_OUT JSON {"file":[[{"invoked":b,"status":n} per req op] per history], "database":[...]}
+// "set" does what PATCH /admin/users/<name> does: read the record, replace the permission list, write it back.
+func TestVerifStore(t *testing.T) {
+	b, err := os.ReadFile(os.Getenv("VERIF_IN"))
+	if err != nil {
+		t.Fatal(err)
+	}
+
+	in := struct {
+		Histories [][][]any `json:"histories"`
+	}{}
+	if err := json.Unmarshal(b, &in); err != nil {
+		t.Fatal(err)
+	}
+
+	type reqOut struct {
+		Invoked bool `json:"invoked"`
+		Status  int  `json:"status"`
+	}
+
+	saved := auth.AuthService
+	defer func() { auth.AuthService = saved }()
+
+	dbsvc, err := auth.NewDatabaseService("sqlite3://"+filepath.Join(t.TempDir(), "verif-users.db"), "verifadmin", "verif-admin-pw")
+	if err != nil {
+		t.Fatal(err)
+	}
+
+	users := []string{"h1", "h2"}
+	hashes := map[string]string{}
+
+	for _, u := range users {
+		h, err := auth.HashPassword("pw-" + u)
+		if err != nil {
+			t.Fatal(err)
+		}
+
+		hashes[u] = h
+	}
+
+	result := map[string][][]reqOut{}
+
+	for _, backend := range []string{"file", "database"} {
+		if backend == "database" {
+			auth.AuthService = dbsvc
+		} else {
+			auth.AuthService = saved
+		}
+
+		all := [][]reqOut{}
+
+		for _, h := range in.Histories {
+			caches.Purge(caches.AuthCache)
+			caches.Purge(caches.TokenCache)
+
+			for _, u := range users {
+				RecordSuccess(u)
+
+				if err := auth.AuthService.WriteUser(0, defs.User{Name: u, ID: uuid.New(), Password: hashes[u], Permissions: []string{defs.LogonPermission}}); err != nil {
+					t.Fatal(err)
+				}
+
+				caches.Add(caches.TokenCache, "verif-store-"+u, &tokens.Token{Name: u, TokenID: uuid.New(), Expires: time.Now().Add(time.Hour)})
+			}
+
+			outs := []reqOut{}
+
+			for _, op := range h {
+				kind, _ := op[0].(string)
+
+				switch kind {
+				case "set":
+					name := op[1].(string)
+					ps := []string{}
+
+					for _, p := range op[2].([]any) {
+						ps = append(ps, p.(string))
+					}
+
+					cur, err := auth.AuthService.ReadUser(0, name, false)
+					if err != nil {
+						t.Fatal(err)
+					}
+
+					cur.Permissions = ps
+					if err := auth.AuthService.WriteUser(0, cur); err != nil {
+						t.Fatal(err)
+					}
+				case "req":
+					ps := []string{}
+					for _, p := range op[1].([]any) {
+						ps = append(ps, p.(string))
+					}
+
+					name := op[2].(string)
+					o := reqOut{}
+					m := &Router{name: "verif-store", routes: map[routeSelector]*Route{}}
+					m.New("/verif/store", func(*Session, http.ResponseWriter, *http.Request) int {
+						o.Invoked = true
+
+						return http.StatusOK
+					}, http.MethodGet).Permissions(ps...)
+
+					req := httptest.NewRequest(http.MethodGet, "/verif/store", nil)
+					if op[3].(string) == "basic" {
+						req.SetBasicAuth(name, "pw-"+name)
+					} else {
+						req.Header.Set("Authorization", "Bearer verif-store-"+name)
+					}
+
+					w := httptest.NewRecorder()
+					m.ServeHTTP(w, req)
+					o.Status = w.Code
+					outs = append(outs, o)
+				default:
+					t.Fatalf("unknown store op %v", op)
+				}
+			}
+
+			all = append(all, outs)
+		}
+
+		result[backend] = all
+	}
+
+	ob, _ := json.Marshal(result)
 	if err := os.WriteFile(os.Getenv("VERIF_OUT"), ob, 0o644); err != nil {
 		t.Fatal(err)
 	}
